@@ -182,8 +182,8 @@ where
                 if self.method.exec(&edge) && !visited.contains(v.key()) {
                     visited.insert(v.key().clone());
                     queue.push(v.clone());
-                    result.push(edge);
                     self.postorder_forward(result, visited, queue);
+                    result.push(edge);
                 }
             }
         }
@@ -203,8 +203,8 @@ where
                 if self.method.exec(&edge) && !visited.contains(v.key()) {
                     visited.insert(v.key().clone());
                     queue.push(v.clone());
-                    result.push(edge);
                     self.postorder_backward(result, visited, queue);
+                    result.push(edge);
                 }
             }
         }
